@@ -1,8 +1,10 @@
 """C16 — path and in-memory I/O are equivalent and honour the declared encoding."""
 import builtins
 import io
+import json
 import os
 import shutil
+import zlib
 
 from ..framework import Check
 from .c13 import nl_lines
@@ -26,6 +28,25 @@ def file_class(fam, binary, enc, litw=4, ident="R"):
     return bl.mk_sectionfile_class([bl.mk_section_class(["lines", 2], 0)], enc)
 
 
+OTHER_LINE = {"register": "R zzz\n", "block": "BEGIN zzz END\n", "section": "zzz\n"}
+OTHER_BIN = {"register": "R \x05\x00\x00\x00abcd", "block": "\x01ab\x02"}
+
+
+def draw_history(rng, big=False):
+    """what happened to the two names (source, destination) in the file system before / after the measured cycle:
+    'absent'     the source name is handed to read() while it names no file (a file left there by an earlier step is removed first)
+    'other'      a file with OTHER content sits at the source name and is read (judged: == reading that content directly)
+    'absent_out' the destination name is handed to read() before anything was written there
+    after 'removed': the source file is deleted after the cycle and the name is handed to read() once more"""
+    if rng.random() < 0.4:
+        return {}
+    steps = ["absent", "absent_out"] if big else ["absent", "other", "absent_out", "absent", "other"]
+    h = {"history": [rng.choice(steps) for _ in range(rng.randint(1, 3))]}
+    if rng.random() < 0.3:
+        h["after"] = ["removed"]
+    return h
+
+
 class CHECK(Check):
     pid = "C16"
     entry = "C16"
@@ -38,7 +59,7 @@ class CHECK(Check):
             "File.read(path) == File.read(content); bytes on disk after write(path) decoded with the declared encoding equal the "
             "in-memory output (binary: identical bytes); read(path written) == read(memory output); open() is wrapped to record "
             "mode and encoding. non-trivial = content contains a non-ASCII character; distinct = hash"
-            " Later additions: files of 450-2500 records (beyond the I/O buffers, odd record widths), contents that name an existing file, destinations pre-filled with longer stale content, byte-exact comparison with the declared encoder, codec model tie (malformed input).")
+            " Later additions: files of 450-2500 records (beyond the I/O buffers, odd record widths), contents that name an existing file, destinations pre-filled with longer stale content, byte-exact comparison with the declared encoder, codec model tie (malformed input); file-system histories of the two names around the measured cycle (60 % of the cases: the name handed to read() while it names no file yet / no longer, another file read at the same name before the measured content is put there, the name read again after the file was deleted).")
     not_exhibited = ["OS path resolution (the theorems take the file system as an arbitrary function)",
                      "error handlers other than strict, encodings other than the four of the property"]
     assumptions = ["CPython's utf-8/latin-1/cp1252/utf-16 codecs and universal-newline translation are modelled (Py/PyCodec.v), "
@@ -50,13 +71,13 @@ class CHECK(Check):
             nrec = rng.choice([450, 1000, 2500])
             litw = rng.choice([1, 3, 5, 7, 4])   # odd record widths: a record start falls on every offset modulo the buffer size
             yield {"fam": "register", "binary": True, "enc": "utf-8", "linesize": rng.choice([2, 2, 3]), "litw": litw, "ident": "RG",   # identifier as wide as its columns
-                   "content": "".join("RG" + chr(1 + (i % 100)) + "\x00\x00\x00" + ("ab%05d" % (i % 97))[:litw] for i in range(nrec))}
+                   "content": "".join("RG" + chr(1 + (i % 100)) + "\x00\x00\x00" + ("ab%05d" % (i % 97))[:litw] for i in range(nrec)), **draw_history(rng, True)}
             for fam in families.FAMILIES:
                 enc = rng.choice(ENCODINGS)
                 w = rng.choice(WORDS[enc])
                 yield {"fam": fam, "binary": False, "enc": enc,
                        "content": "".join({"register": "R " + (w + str(i))[:10], "block": ("BEGIN " if i % 3 == 0 else "") + w + (" END" if i % 3 == 2 else ""), "section": w + str(i)}[fam] + "\n"
-                                          for i in range(nrec))}
+                                          for i in range(nrec)), **draw_history(rng, True)}
         # content that merely NAMES an existing file (plus a line end / blanks) is content, not a path
         for fam in families.FAMILIES:
             for enc in ENCODINGS:
@@ -81,7 +102,7 @@ class CHECK(Check):
                     lines.append(w + " END\n")
                 else:
                     lines.append(w + " free\n")
-            yield {"fam": fam, "binary": binary, "enc": enc, "content": "".join(lines)}
+            yield {"fam": fam, "binary": binary, "enc": enc, "content": "".join(lines), **draw_history(rng)}
 
     def impl(self, case):
         fam, binary, enc = case["fam"], case["binary"], case["enc"]
@@ -95,6 +116,10 @@ class CHECK(Check):
             os.makedirs(deep, exist_ok=True)
             p_in = os.path.join(deep, "in.dat")
         p_out = os.path.join(TMP, "out.dat")
+        if case.get("history") or case.get("after"):
+            # names of their own: what a case does to its names in the file system must not reach the cases after it
+            tag = "%08x" % zlib.crc32(json.dumps(case, sort_keys=True).encode())
+            p_in, p_out = p_in[:-4] + "_" + tag + ".dat", p_out[:-4] + "_" + tag + ".dat"
         content = case["content"].encode("latin-1") if binary else case["content"]
         if case.get("names_file"):
             other = os.path.join(TMP, "other.dat")
@@ -104,16 +129,57 @@ class CHECK(Check):
         seen = []
         real_open = builtins.open
 
+        log = [seen]
+
         def wopen(path, mode="r", *a, **k):
-            if isinstance(path, str) and path.startswith(TMP) and "verif" not in k:
-                seen.append([os.path.basename(path), mode, k.get("encoding")])
+            if isinstance(path, (str, bytes)) and os.fsdecode(path).startswith(TMP) and "verif" not in k:
+                log[0].append([os.path.basename(os.fsdecode(path)), mode, k.get("encoding")])
             k.pop("verif", None)
             return real_open(path, mode, *a, **k)
 
+        args = (case.get("linesize", 1),) if (binary and fam == "register") else ()
+
+        def read_name_without_file(p):
+            """the name p names no file: by the documented rule it is the contents themselves"""
+            if not binary:
+                F.read(p, *args)
+                return
+            F.read(os.fsencode(p), *args)          # well-typed contents of a binary file
+            try:
+                F.read(p, *args)                   # a str is no binary content: the outcome of this call is not judged ...
+            except OSError:
+                raise                              # ... except that nothing may be opened
+            except Exception:
+                pass
+
         try:
+            extra_obs = {}
+            if case.get("history"):
+                # the file-system history of the two names before the measured cycle
+                hist_seen, steps = [], []
+                log[0] = hist_seen
+                builtins.open = wopen
+                try:
+                    for step in case["history"]:
+                        if step == "other":
+                            other = (OTHER_BIN[fam].encode("latin-1") + content) if binary else (OTHER_LINE[fam] + content)
+                            with real_open(p_in, "wb") as fh:
+                                fh.write(other if binary else other.encode(enc))
+                            a, b = F.read(p_in, *args), F.read(other, *args)
+                            steps.append({"step": step, "eq": bool(a == b) and bool(b == a)})
+                        else:
+                            p = p_in if step == "absent" else p_out
+                            if os.path.exists(p):
+                                os.remove(p)
+                            read_name_without_file(p)
+                            steps.append({"step": step, "created": os.path.exists(p)})
+                finally:
+                    builtins.open = real_open
+                    log[0] = seen
+                extra_obs["history"] = steps
+                extra_obs["history_opens"] = hist_seen
             with real_open(p_in, "wb") as fh:
                 fh.write(content if binary else content.encode(enc))
-            extra_obs = {}
             if not binary:
                 with real_open(p_in, "rb") as fh:
                     extra_obs["in_bytes"] = list(fh.read())
@@ -121,7 +187,6 @@ class CHECK(Check):
                     extra_obs["text_mode_read"] = fh.read()
             builtins.open = wopen
             try:
-                args = (case.get("linesize", 1),) if (binary and fam == "register") else ()
                 f_path = F.read(p_in, *args)
                 f_mem = F.read(content, *args)
                 eq_read = bool(f_path == f_mem) and bool(f_mem == f_path)
@@ -154,6 +219,13 @@ class CHECK(Check):
                 f_back = F.read(p_out, *args)
                 f_back_mem = F.read(mem_out, *args)
                 eq_back = bool(f_back == f_back_mem)
+                if case.get("after"):
+                    # the source file is deleted: its name is contents again
+                    log[0] = after_seen = []
+                    os.remove(p_in)
+                    read_name_without_file(p_in)
+                    extra_obs["after"] = [{"step": "removed", "created": os.path.exists(p_in)}]
+                    extra_obs["after_opens"] = after_seen
             finally:
                 builtins.open = real_open
             with real_open(p_out, "rb") as fh:
@@ -252,6 +324,18 @@ class CHECK(Check):
         if not obs["buffer_open"]:
             return "caller-owned buffer was closed"
         binary, enc = case["binary"], case["enc"]
+        if [h["step"] for h in obs.get("history", [])] != case.get("history", []) or [h["step"] for h in obs.get("after", [])] != case.get("after", []):
+            return "history steps not observed"
+        for h in obs.get("history", []) + obs.get("after", []):
+            if h.get("eq") is False:
+                return "earlier file at the same name: File.read(path) differs from File.read(content)"
+            if h.get("created"):
+                return "reading a name that names no file left a file there"
+        for name, mode, e in obs.get("history_opens", []) + obs.get("after_opens", []):
+            if mode != ("rb" if binary else "r"):
+                return "file opened with mode %r for reading in %s storage" % (mode, "binary" if binary else "text")
+            if not binary and e != enc:
+                return "file opened with encoding %r instead of the declared %r" % (e, enc)
         exp_modes = {"in.dat": "rb" if binary else "r", "out.dat": None}
         for name, mode, e in obs["opens"]:
             want_r, want_w = ("rb", "wb") if binary else ("r", "w")
@@ -267,14 +351,32 @@ class CHECK(Check):
         return any(ord(c) > 127 for c in case["content"])
 
     def classify(self, case):
-        return {"fam_" + case["fam"]: 1, "binary" if case["binary"] else "text": 1, "enc_" + case["enc"]: 1}
+        d = {"fam_" + case["fam"]: 1, "binary" if case["binary"] else "text": 1, "enc_" + case["enc"]: 1}
+        steps = case.get("history", []) + case.get("after", [])
+        d["history_none" if not steps else "history_some"] = 1
+        for st in set(steps):
+            d["history_" + st] = 1
+        return d
 
     def signature(self, case, why):
         import re
         return re.sub(r"'[^']*'|[0-9]+", "#", why)
 
     def shrink(self, case):
+        if case.get("after"):
+            yield {k: v for k, v in case.items() if k != "after"}
+        hist = case.get("history", [])
+        for i in range(len(hist)):
+            c = {k: v for k, v in case.items() if k != "history"}
+            if len(hist) > 1:
+                c["history"] = hist[:i] + hist[i + 1:]
+            yield c
         lines = nl_lines(case["content"])
+        if len(lines) > 8:
+            for part in (lines[:len(lines) // 2], lines[len(lines) // 2:]):
+                c = dict(case)
+                c["content"] = "".join(part)
+                yield c
         for i in range(len(lines)):
             c = dict(case)
             c["content"] = "".join(lines[:i] + lines[i + 1:])
